@@ -163,6 +163,20 @@ Second generation (class GenR; Gen/CommitmentPolicyGen.v): functions over struct
                with all fields in order; `[e; n]` only inside an opaque call; `None` / `(None, None)` typed by what is
                expected; `v.iter().filter(|h| <bool>).map(|h| h.f).min()` / `.max()` over a Vec<S> (min_of / max_of);
                a logging macro as the last expression of a block; `trace_node_state!`.
+  added for Gen/PaymentSummariesGen.v (EnforcementState::summarize_payments / payments_summary / incoming_payments_summary):
+               plain-value functions the caller lists (`value_methods`): associated functions and `&self` methods whose
+               body may loop; rendered `trap (result T)` (they never return an error; the result layer only carries the
+               loops), called as `Self::f(..)`; parameter type `&[S]` (a list of records) and `for h in <that slice>`;
+               `a.or(b)` on options (opt_or_else), `opt.map(|h| &h.f)` for a Vec field of a record;
+               `opt.map(|h| Self::f(h)).unwrap_or_else(|| Map::new())` with f a listed value function (a match on the
+               option: the call for Some, the empty map for None); a local `Map<K, u64>`;
+               the statement `m.entry(k)[.and_modify(<closure>)][.or_insert(d)];` on such a local, with the closure one of
+               `|e| *e += x` (add in the arithmetic of the build profile), `|e| *e = max(*e, v)`, `|e| *e = min(*e, v)`
+               (core::cmp::{max, min}, checked in the use lines) - map_entry_update: the entry is rewritten when the key
+               is present, d inserted when it is absent and an or_insert is written, nothing otherwise;
+               `m.retain(|k, _| <bool in k>);` (map_retain: filter on the keys);
+               `for (k, v) in m { .. }` consuming a local `Map<K, u64>`: the pairs are visited in the order
+               `pair_order m`, an uninterpreted parameter of which the theorems only assume that it permutes its argument.
   refused    : a Rust binder whose name the generated text uses itself (prof, warn, policy, Val, t<digits>, gen_.., ..), a
                `let` that shadows a variable in scope, `return`, `else`
                branches of statements, `match`, `&mut`, closures anywhere else, struct literals, everything not listed.
@@ -405,6 +419,8 @@ class P:
                 self.eat("[")
                 inner = self.type()
                 self.eat("]")
+                if inner.startswith("struct:"):
+                    return "vec:" + inner[7:]           # &[S]: read like a Vec<S>
                 if inner != "u64":
                     raise GenError("a slice of %s is outside the fragment" % inner)
                 return "vec"                            # &[u64]: read like a Vec<u64>
@@ -505,7 +521,17 @@ class P:
                 stmts.append(("let", x, ty, e))
             elif self.at("for"):
                 self.eat("for")
-                var = self.eat(kind="id")
+                if self.known is not None and self.at("("):
+                    self.eat("(")
+                    names_ = []
+                    while not self.at(")"):
+                        names_.append(self.eat(kind="id"))
+                        if self.at(","):
+                            self.eat(",")
+                    self.eat(")")
+                    var = ("tuple_pat", names_)
+                else:
+                    var = self.eat(kind="id")
                 self.eat("in")
                 lo = self.expr_norange()
                 if self.at(".."):
@@ -867,6 +893,14 @@ class P:
                 if self.at(","):
                     self.eat(",")
             self.eat("|")
+            if self.known is not None and self.at("*") and self.peek(1)[0] == "id":
+                # |e| *e += x   and   |e| *e = v  : the closure updates what its parameter points to
+                if self.peek(2)[1] == "+" and self.peek(3)[1] == "=":
+                    self.eat("*"); tgt = self.eat(kind="id"); self.eat("+"); self.eat("=")
+                    return ("closure", names, ("compound", "+", ("deref", ("var", tgt)), self.expr()))
+                if self.peek(2)[1] == "=":
+                    self.eat("*"); tgt = self.eat(kind="id"); self.eat("=")
+                    return ("closure", names, ("assign_expr", ("deref", ("var", tgt)), self.expr()))
             return ("closure", names, self.expr())
         if v == "{" and k == "op":              # a block as an expression
             ss, tail = self.block()
@@ -1833,6 +1867,8 @@ class GenR(Gen):
         self.validator_calls = {}         # method of a `dyn Validator` value -> (Gallina head, parsed fn, kind): translated
                                           #   methods of the validator the trait object is (kind "bool": legacy Result-as-bool)
         self.new_fns = {}                 # path -> (Gallina text, type) for constructors of empty values (Vec::new ..)
+        self.value_methods = set()        # (owner, name) of functions with a plain value that contain loops: rendered as
+                                          #   trap (result T) although they cannot return errors
         self.state_methods = set()        # (owner, name) of `&mut self` methods translated in state-passing style:
                                           #   trap (result S) resp. trap (result (S * value)); they cannot return errors
         self.aliases = {}                 # local -> (map field of self, key text, struct): a `&mut` into a map entry
@@ -1862,6 +1898,8 @@ class GenR(Gen):
             return "(list N)"
         if t == "ordfn":
             return "(list N -> list N)"
+        if t == "pairordfn":
+            return "(list (N * N) -> list (N * N))"
         if t == "res_bool":
             return "bool"
         if t == "vec_u32":
@@ -1878,7 +1916,7 @@ class GenR(Gen):
             args, ret = t[3:].split("->")
             return "(%s)" % " -> ".join([self.coq_type(a) for a in args.split(",") if a] + [self.coq_type(ret)])
         if t.startswith("vec:"):
-            return "list %s" % t[4:]
+            return "list %s" % self.coq_type("struct:" + t[4:])
         if t.startswith("tuple:"):
             return "(%s)" % " * ".join(self.coq_type(x) for x in t[6:].split(","))
         if t == "result_unit":
@@ -1898,7 +1936,8 @@ class GenR(Gen):
         return x
 
     def tagged(self):
-        return bool(self.cur.get("as_state")) or self.cur["ret"] in ("result_unit", "result:id", "result:u64")
+        return bool(self.cur.get("as_state")) or bool(self.cur.get("as_value")) \
+            or self.cur["ret"] in ("result_unit", "result:id", "result:u64")
 
     @staticmethod
     def carry(vs):
@@ -2030,6 +2069,19 @@ class GenR(Gen):
                         raise GenError("%s: a Result that is not followed by `?` is outside the fragment" % pname)
                     self.use_opaque(pname, pty)
                     return [], pname, pty
+            if e[1].startswith("Self::") and (self.owner, e[1][6:]) in self.methods2:
+                key_ = (self.owner, e[1][6:])
+                m2 = self.methods2[key_]
+                if m2["selfmode"] != "free":
+                    raise GenError("%s is not an associated function" % e[1])
+                bs, cs = self.call_args(e[1], e[2], m2, env)
+                x = self.fresh()
+                code_ = " ".join(["gen_%s_%s prof" % key_] + self.pass_opaque(key_) + cs)
+                if key_ in self.value_methods:
+                    if self.pure:
+                        raise GenError("%s inside a block used as a value is outside the fragment" % e[1])
+                    return bs + [(x, code_, "tryR")], x, m2["ret"]
+                return bs + [(x, code_)], x, m2["ret"]
             if e[1] in self.new_fns and not e[2]:
                 code_, ty_ = self.new_fns[e[1]]
                 if ty_ == "empty":               # Map::new(), OrderedMap::new(): the type is the expected one
@@ -2149,7 +2201,49 @@ class GenR(Gen):
                     ft = dict(self.structs[sn]).get(body[2])
                     if ft == "u64":
                         return b, "(option_map (fun v_ => %s) %s)" % (self.proj(sn, body[2], "v_"), v), "opt_u64"
+                if tv.startswith("opt_struct:") and body[0] == "ref" and body[1][0] == "field" and body[1][1] == ("var", par):
+                    sn = tv[11:]
+                    ft = dict(self.structs[sn]).get(body[1][2], "")
+                    if ft.startswith("vec:"):
+                        return b, "(option_map (fun v_ => %s) %s)" % (self.proj(sn, body[1][2], "v_"), v), "opt:" + ft
+                if tv.startswith("opt:vec:") and body[0] == "call" and body[2] == [("var", par)]:
+                    raise GenError(".map(|h| f(h)) that is not followed by .unwrap_or_else(|| ..) is outside the fragment")
                 raise GenError(".map(|%s| ..) of this shape on a %s is outside the fragment" % (par, tv))
+            if name == "or" and len(args) == 1:
+                b1, a, ta = self.expr(recv, env)
+                b2, c, tc = self.expr(args[0], env, ta)           # evaluated whether or not it is needed
+                if not ta.startswith("opt_struct:") or tc != ta:
+                    raise GenError(".or(..) on %s and %s is outside the fragment" % (ta, tc))
+                return b1 + b2, "(opt_or_else %s %s)" % (a, c), ta
+            if name == "unwrap_or_else" and len(args) == 1 and args[0][0] == "closure" and not args[0][1] \
+                    and recv[0] == "mcall" and recv[2] == "map" and len(recv[3]) == 1 and recv[3][0][0] == "closure" \
+                    and len(recv[3][0][1]) == 1 and recv[3][0][2][0] == "call" and recv[3][0][2][2] == [("var", recv[3][0][1][0])]:
+                # opt.map(|h| Self::f(h)).unwrap_or_else(|| <empty>) : f on the value of Some, the other value for None
+                b0, o_, to_ = self.expr(recv[1], env)
+                if not to_.startswith("opt:vec:"):
+                    raise GenError(".map(|h| f(h)).unwrap_or_else(..) on a %s is outside the fragment" % to_)
+                par = recv[3][0][1][0]
+                env_c = dict(env)
+                env_c[self.binder(par, env=env)] = to_[4:]
+                bf, cf, tf = self.expr(recv[3][0][2], env_c)
+                bd, cd, td = self.expr(args[0][2], env, tf)
+                if td != tf or bd or len(bf) != 1 or self.pure:
+                    raise GenError(".map(|h| f(h)).unwrap_or_else(..) of this shape is outside the fragment")
+                x = self.fresh()
+                kind_ = bf[0][2] if len(bf[0]) > 2 else None
+                none_ = "Val (OkR %s)" % cd if kind_ == "tryR" else "Val %s" % cd
+                code_ = "(match %s with\n| Some %s => %s\n| None => %s\nend)" % (o_, par, bf[0][1], none_)
+                return b0 + [((x, code_, "tryR") if kind_ == "tryR" else (x, code_))], x, tf
+            if name == "map" and len(args) == 1 and args[0][0] == "closure" and len(args[0][1]) == 1 \
+                    and args[0][2][0] == "ref" and args[0][2][1][0] == "field" and args[0][2][1][1] == ("var", args[0][1][0]):
+                save_ = self.tmp
+                b, v, tv = self.expr(recv, env)
+                if tv.startswith("opt_struct:"):
+                    sn = tv[11:]
+                    ft = dict(self.structs[sn]).get(args[0][2][1][2], "")
+                    if ft.startswith("vec:"):
+                        return b, "(option_map (fun v_ => %s) %s)" % (self.proj(sn, args[0][2][1][2], "v_"), v), "opt:" + ft
+                self.tmp = save_
             if name == "map_or" and len(args) == 2 and args[1][0] == "closure" and len(args[1][1]) == 1:
                 b, v, tv = self.expr(recv, env)
                 par, body = args[1][1][0], args[1][2]
@@ -2534,9 +2628,11 @@ class GenR(Gen):
                 if tgt[0] != "var":
                     raise GenError("assignment target %r is outside the fragment" % (tgt,))
                 out.append(tgt[1])
-            elif s[0] == "expr" and s[1][0] == "mcall" and s[1][1][0] == "var" and s[1][2] in ("extend", "push", "insert") \
+            elif s[0] == "expr" and s[1][0] == "mcall" and s[1][1][0] == "var" and s[1][2] in ("extend", "push", "insert", "retain") \
                     and s[1][1][1] in getattr(self, "collections", ()):
                 out.append(s[1][1][1])
+            elif s[0] == "expr" and self.entry_chain(s[1]) is not None and self.entry_chain(s[1])[0] in getattr(self, "collections", ()):
+                out.append(self.entry_chain(s[1])[0])
             elif s[0] == "expr" and s[1][0] == "mcall" and s[1][2] == "insert" and s[1][1][0] == "field" \
                     and s[1][1][1] == ("var", "self") and self.cur.get("selfmode") == "mut":
                 out.append("self")
@@ -2731,7 +2827,7 @@ class GenR(Gen):
             self.rebound.add(x)
             env2 = dict(env)
             env2[x] = t
-            if t in ("set", "vec_id"):
+            if t in ("set", "vec_id") or t.startswith("map:"):
                 self.collections.add(x)
             return self.emit_binds(b, "let %s := %s in\n%s" % (x, c, self.stmts(rest, env2, k)))
         if kind == "assign":
@@ -2806,6 +2902,50 @@ class GenR(Gen):
             if e[0] == "try":
                 b, c, t = self.expr(e, env)
                 return self.emit_binds(b, self.stmts(rest, env, k))
+            ec = self.entry_chain(e)
+            if ec is not None and ec[0] in self.collections and env.get(ec[0]) == "map:u64":
+                x_, keyex, mod, dflt = ec
+                bk, kc, tk = self.expr(keyex, env)
+                if tk != "id":
+                    raise GenError("entry(..) with a key of type %s" % tk)
+                bd, dc = [], "None"
+                if dflt is not None:
+                    bd, dv, td = self.expr(dflt, env, "u64")         # the argument of or_insert is evaluated first
+                    if td != "u64":
+                        raise GenError("or_insert(%s) into a map of u64" % td)
+                    dc = "(Some %s)" % dv
+                fc = "(fun e_ => Val e_)"
+                if mod is not None:
+                    par, body = mod[1][0], mod[2]
+                    env_c = dict(env)
+                    env_c[self.binder(par, env=env)] = "u64"
+                    # |e| *e += x   |   |e| *e = max(*e, v) / min(*e, v)
+                    if body[0] == "compound" and body[1] == "+" and body[2] == ("deref", ("var", par)):
+                        bx, xc, tx2 = self.expr(body[3], env_c, "u64")
+                        if bx or tx2 != "u64":
+                            raise GenError("`*e += <%s>` in and_modify is outside the fragment" % tx2)
+                        fc = "(fun %s => add_p prof %s %s)" % (par, par, xc)
+                    elif body[0] == "assign_expr" and body[1] == ("deref", ("var", par)) and body[2][0] == "call" \
+                            and body[2][1] in ("max", "min") and len(body[2][2]) == 2 and body[2][2][0] == ("deref", ("var", par)):
+                        bx, xc, tx2 = self.expr(body[2][2][1], env_c, "u64")
+                        if bx or tx2 != "u64":
+                            raise GenError("and_modify(|e| *e = %s(*e, <%s>)) is outside the fragment" % (body[2][1], tx2))
+                        fc = "(fun %s => Val (N.%s %s %s))" % (par, body[2][1], par, xc)
+                    else:
+                        raise GenError("and_modify closure %r is outside the fragment" % (body,))
+                return self.emit_binds(bk + bd, "%s <- map_entry_update %s %s %s %s ;;\n%s" % (x_, x_, kc, fc, dc, self.stmts(rest, env, k)))
+            if e[0] == "mcall" and e[2] == "retain" and e[1][0] == "var" and e[1][1] in self.collections \
+                    and env.get(e[1][1], "").startswith("map:") and len(e[3]) == 1 and e[3][0][0] == "closure" and len(e[3][0][1]) == 2:
+                x_ = e[1][1]
+                kpar, vpar = e[3][0][1]
+                if vpar != "_":
+                    raise GenError("retain with a closure that reads the value is outside the fragment")
+                env_c = dict(env)
+                env_c[self.binder(kpar, env=env)] = "id"
+                bc, cc, tc = self.expr(e[3][0][2], env_c)
+                if bc or tc != "bool":
+                    raise GenError("retain closure of type %s (or that can panic) is outside the fragment" % tc)
+                return "let %s := map_retain %s (fun %s => %s) in\n%s" % (x_, x_, kpar, cc, self.stmts(rest, env, k))
             if e[0] == "mcall" and e[1][0] == "var" and e[1][1] in self.collections and e[1][1] in env and len(e[3]) == 1:
                 x_, tx_ = e[1][1], env[e[1][1]]
                 if e[2] == "push" and tx_ == "vec_id":
@@ -3036,6 +3176,26 @@ class GenR(Gen):
             var, it, body = s[1], s[2], s[3]
             if not self.tagged() or self.pure:
                 raise GenError("a loop outside the body of a function that returns Result<(), _>")
+            if not isinstance(var, str):
+                # for (k, v) in m : a map local handed over to the loop; visited in an order the code does not choose
+                if not (it[0] == "var" and env.get(it[1]) == "map:u64" and len(var[1]) == 2):
+                    raise GenError("`for (k, v) in ..` over anything but a local map of u64 is outside the fragment")
+                self.use_opaque("pair_order", "pairordfn")
+                carried = self.assigned2(body)
+                if any(c_ not in env for c_ in carried):
+                    raise GenError("a loop that assigns an unknown variable is outside the fragment")
+                env_b = dict(env)
+                env_b[self.binder(var[1][0], env=env)] = "id"
+                env_b[self.binder(var[1][1], env=env)] = "u64"
+                self.rebound.update(var[1])
+                val_, pat_ = self.carry(carried)
+                self.depth += 1
+                inner = self.stmts(body, env_b, lambda e2: "Val (OkR %s)" % val_)
+                self.depth -= 1
+                if len(carried) != 1:
+                    raise GenError("a loop over a map that does not assign exactly one variable is outside the fragment")
+                return "%s <-? fold_r (fun %s kv_ => let '(%s, %s) := kv_ in\n%s) (pair_order %s) %s ;;\n%s" % (
+                    carried[0], carried[0], var[1][0], var[1][1], inner, it[1], carried[0], self.stmts(rest, env, k))
             ordered = None
             if it[0] == "mcall" and it[2] == "iter" and not it[3]:
                 save_ = self.tmp
@@ -3073,8 +3233,9 @@ class GenR(Gen):
                 seq = it[1]
             elif it[0] == "mcall" and it[2] == "iter" and not it[3]:
                 seq = it[1]
-            elif it[0] == "var" and env.get(it[1]) == "vec" and it[1] in dict(self.cur["params"]) and it[1] not in self.rebound:
-                seq = it                          # `for x in s` for a slice parameter s: &[u64] (iterates by reference)
+            elif it[0] == "var" and (env.get(it[1]) == "vec" or env.get(it[1], "").startswith("vec:")) \
+                    and it[1] in dict(self.cur["params"]) and it[1] not in self.rebound:
+                seq = it                          # `for x in s` for a slice parameter s: &[u64] / &[S] (iterates by reference)
             else:
                 raise GenError("only `for x in &v` / `for x in v.iter()` / `for x in <slice parameter>` are inside the fragment")
             b, v, tv = self.expr(seq, env)
@@ -3121,6 +3282,20 @@ class GenR(Gen):
     def validator_head(self, name):
         fn = self.coq_fn.get((self.validator, name), "gen_%s" % name)
         return "%s prof warn policy" % fn if self.policy_struct else "%s prof warn" % fn
+
+    @staticmethod
+    def entry_chain(e):
+        """m.entry(k)[.and_modify(|e| ..)][.or_insert(d)] on a local m -> (m, key, modify closure or None, default or None)"""
+        mod, dflt = None, None
+        if e[0] == "mcall" and e[2] == "or_insert" and len(e[3]) == 1:
+            dflt = e[3][0]
+            e = e[1]
+        if e[0] == "mcall" and e[2] == "and_modify" and len(e[3]) == 1 and e[3][0][0] == "closure" and len(e[3][0][1]) == 1:
+            mod = e[3][0]
+            e = e[1]
+        if e[0] == "mcall" and e[2] == "entry" and len(e[3]) == 1 and e[1][0] == "var" and (mod is not None or dflt is not None):
+            return e[1][1], e[3][0], mod, dflt
+        return None
 
     def alias_source(self, e):
         """self.F.get_mut(&k) | self.F.get_mut(&k).expect("..") | self.F.entry(k).or_insert_with(|| v) -> (kind, F, key, init)"""
@@ -3233,6 +3408,29 @@ class GenR(Gen):
             st = self.coq_type("struct:" + owner)
             rt = "(result %s)" % st if m["ret"] == "unit" else "(result (%s * %s))" % (st, self.coq_type(m["ret"]))
             return "Definition gen_%s_%s %s : trap %s :=\n%s." % (owner, m["name"], " ".join(head), rt, indent(body))
+        m.pop("as_value", None)
+        if (owner, m["name"]) in self.value_methods and owner != self.validator and m["selfmode"] in ("free", "ref"):
+            m["as_value"] = True
+            env = {}
+            for x, t in m["params"]:
+                env[self.binder(x)] = t
+            if m["selfmode"] == "ref":
+                env["self"] = "struct:" + owner
+            ss_, tail_ = m["body"]
+
+            def kv(env2):
+                if tail_ is None:
+                    raise GenError("fn %s: block without a value" % m["name"])
+                bb, cc, tt_ = self.expr(tail_, env2, m["ret"])
+                if tt_ != m["ret"]:
+                    raise GenError("fn %s returns %s, tail expression has %s" % (m["name"], m["ret"], tt_))
+                return self.emit_binds(bb, "Val (OkR %s)" % cc)
+            body = self.stmts(ss_, env, kv)
+            self.sig_opaque[(owner, m["name"])] = list(self.opaque_used)
+            head = ["(prof : profile)"] + ["(%s : %s)" % (pn, self.coq_type(pt)) for pn, pt in self.opaque_used] + \
+                   (["(self : %s)" % self.coq_type("struct:" + owner)] if m["selfmode"] == "ref" else []) + \
+                   ["(%s : %s)" % (x, self.coq_type(t)) for x, t in m["params"]]
+            return "Definition gen_%s_%s %s : trap (result %s) :=\n%s." % (owner, m["name"], " ".join(head), self.coq_type(m["ret"]), indent(body))
         if m["selfmode"] == "free" and owner != self.validator:
             # an associated function
             env = {}
@@ -3930,6 +4128,60 @@ def _generate_node_payments(repo):
             "parameters": ["iter_order (the order in which the hash set is visited)", "warn (the policy filter)"]}
 
 
+
+def generate_payment_summaries(repo):
+    try:
+        return _generate_payment_summaries(repo)
+    except (IndexError, KeyError, ValueError, TypeError, AttributeError, RecursionError, OSError) as e:
+        raise GenError("the source could not be read (%s: %s)" % (type(e).__name__, e))
+
+
+def _generate_payment_summaries(repo):
+    """Gen/PaymentSummariesGen.v: EnforcementState::summarize_payments, ::payments_summary, ::incoming_payments_summary
+    (policy/validator.rs) over the CommitmentInfo2 / HTLCInfo2 records of Gen/CommitmentPolicyGen.v."""
+    core = os.path.join(repo, "vls-core", "src")
+    rd = lambda *p: open(os.path.join(core, *p)).read()
+    va, lib_ = rd("policy", "validator.rs"), rd("lib.rs")
+    if "pub use hashbrown::HashMap as Map;" not in re.sub(r"\s+", " ", lib_):
+        raise GenError("lib.rs: `pub use hashbrown::HashMap as Map;` not found (what Map is)")
+    if not re.search(r"\nuse core::cmp::\{max, min\};", va):
+        raise GenError("policy/validator.rs: max / min are expected from core::cmp")
+    known_cp, structs_cp, _ = policy_decls(core)
+    known = dict(known_cp)
+    known.update({"EnforcementState": "struct:EnforcementState", "Map": "path", "Self": "path"})
+    estate_fields = struct_fields(va, "EnforcementState", skip_unknown=True, known=known)
+    structs = {"CommitmentInfo2": structs_cp["CommitmentInfo2"], "HTLCInfo2": structs_cp["HTLCInfo2"],
+               "EnforcementState": estate_fields}
+    plan = ["summarize_payments", "payments_summary", "incoming_payments_summary"]
+    methods, texts = {}, {}
+    for n in plan:
+        texts[n] = method_source(va, "EnforcementState", n)
+        methods[("EnforcementState", n)] = P(lex(texts[n]), known).fn()
+    g = GenR(structs, {}, methods, {}, {}, [], "SimpleValidator", None, known)
+    cp = "CommitmentPolicyGen."
+    g.coq_struct = {n: (cp + n, cp + n) for n in ("CommitmentInfo2", "HTLCInfo2")}
+    g.new_fns = {"Map::new": ("[]", "map:u64")}
+    g.value_methods = {("EnforcementState", n) for n in plan}
+    out = ["(* struct EnforcementState (policy/validator.rs): the fields whose types are inside the fragment; the commitment\n"
+           "   contents are the records of Gen/CommitmentPolicyGen.v *)\nRecord EnforcementState := mk_EnforcementState {\n%s\n}." %
+           ";\n".join("  EnforcementState_%s : %s" % (f, g.coq_type(t)) for f, t in estate_fields)]
+    for n in plan:
+        out.append("(* EnforcementState::%s (policy/validator.rs)\n%s *)\n%s" % (n, "\n".join(
+            "   " + l for l in texts[n].strip().replace("(*", "( *").replace("*)", "* )").splitlines()),
+            g.method2("EnforcementState", methods[("EnforcementState", n)])))
+    text = ("(** GENERATED by tools/gen_rustfn.py - do not edit.  Statement-by-statement translation of\n"
+            "      EnforcementState::summarize_payments, ::payments_summary, ::incoming_payments_summary (policy/validator.rs).\n"
+            "    Maps are association lists (Base/Rust.v); a map handed to `for (k, v) in m` is visited in the order [pair_order m],\n"
+            "    an uninterpreted parameter.  The functions have plain values; they are rendered as [result] computations that\n"
+            "    cannot return errors (a panic: `*e += x` overflowing).  Payment hashes are opaque identities. *)\n"
+            "From Coq Require Import String.\nFrom VLS Require Export Base.Rust.\nFrom VLS Require Gen.CommitmentPolicyGen.\n\n"
+            + "\n\n".join(out) + "\n")
+    outp = os.path.join(ROOT, "coq", "theories", "Gen", "PaymentSummariesGen.v")
+    if not os.path.exists(outp) or open(outp).read() != text:
+        open(outp, "w").write(text)
+    return {"translated": ["EnforcementState::" + n for n in plan], "parameters": ["pair_order (the order in which a map is visited)"]}
+
+
 if __name__ == "__main__":
     repo = sys.argv[1] if len(sys.argv) > 1 else "/repo"
     print(generate_velocity(repo))
@@ -3943,3 +4195,4 @@ if __name__ == "__main__":
     print(generate_mutual_close(repo))
     print(generate_onchain(repo))
     print(generate_node_payments(repo))
+    print(generate_payment_summaries(repo))
